@@ -14,7 +14,7 @@ def lean_stage(pid, P):
     res["build_ok"] = ok
     res["failed_modules"] = failed
     res["build_errors"] = errs[:10]
-    files = [LEAN / "CollectionsC" / "Properties" / f"{pid}.lean"] + [LEAN / f for f in P.get("extra_lean", [])]
+    files = property_files(pid, P)
     theorems = []
     for f in files:
         if f.exists():
@@ -27,7 +27,10 @@ def lean_stage(pid, P):
         # which of this property's obligations are affected?  any failed module that the property
         # file imports (transitively) or the property file itself
         mods = set(failed)
-        deps = lean_deps(f"CollectionsC.Properties.{pid}")
+        deps = set()
+        for f in files:
+            if f.exists():
+                lean_deps(".".join(f.relative_to(LEAN).with_suffix("").parts), deps)
         hit = sorted(m for m in mods if m in deps)
         res["broken_modules"] = hit
         if hit or not mods:
@@ -54,6 +57,19 @@ def lean_stage(pid, P):
         res["problems"].append("no theorems registered for this property")
     res["failed_all"] = failed
     return res
+
+
+def property_files(pid, P):
+    """Properties/<pid>.lean, Properties/<pid><Suffix>.lean (per-container parts) and the extra files"""
+    d = LEAN / "CollectionsC" / "Properties"
+    fs = [d / f"{pid}.lean"] + sorted(q for q in d.glob(f"{pid}[A-Z]*.lean"))
+    fs += [LEAN / f for f in P.get("extra_lean", [])]
+    seen, out = set(), []
+    for f in fs:
+        if f not in seen:
+            seen.add(f)
+            out.append(f)
+    return out
 
 
 def lean_deps_file(path):
@@ -399,7 +415,7 @@ def run_check(pid, tier, seed, replay=None):
     # ---- thorough: independent re-check of the compiled property module
     leanchecker = None
     if tier == "thorough" and not lean["broken"]:
-        mods = [f"CollectionsC.Properties.{pid}"] + [f[:-5].replace("/", ".") for f in P.get("extra_lean", [])]
+        mods = [".".join(f.relative_to(LEAN).with_suffix("").parts) for f in property_files(pid, P) if f.exists()]
         leanchecker = {}
         for mod in mods:
             with vlib.Lock("lake"):
